@@ -21,7 +21,7 @@ sys.path.insert(0, VERIF)
 from dst import boot  # noqa: E402
 
 REPLAY_DIR = os.path.join(VERIF, "replays")
-EVIDENCE_DIR = os.path.join(VERIF, "evidence")
+EVIDENCE_DIR = os.environ.get("VERIF_EVIDENCE_DIR") or os.path.join(VERIF, "evidence")
 
 
 def _own_new(res, prop, entries):
